@@ -1809,8 +1809,9 @@ def element_assignment(ctx, n):
     rng = ctx.rng
     classes = {"normal": NormalMessage, "naturalNormal": NaturalNormal, "gamma": GammaMessage, "beta": BetaMessage}
     what = ("mean", "variance", "std", "scale", "log_partition", "natural_parameters")
-    for _ in range(n):
-        fam = rng.choice(sorted(classes))
+    for k_ in range(n):
+        # (base class first: what an assignment resets is decided per class, not inherited from the first class used)
+        fam = ["normal", "naturalNormal", "gamma", "beta"][k_] if k_ < 4 else rng.choice(sorted(classes))
         cls = classes[fam]
         p1, p2 = gen_params(rng, fam, 3)
         q1, q2 = gen_params(rng, fam, 0)
